@@ -12,6 +12,7 @@ import os
 
 from .common import *
 from .histlib import HistGen, run_scripts
+from .c19 import two_group_script
 
 IGNORE = set()
 
@@ -201,6 +202,14 @@ def main(run, args):
                 {"op": "observe", "who": "B", "observe": "all"}]
         scripts.append({"name": f"c06-rot-{i}", "suite": 1, "members": members, "ops": ops})
         marks.append(mk)
+    # the member's storage holds TWO groups; the other one runs far ahead and is written after every epoch.
+    # The member is then restored from storage: the restored main group still reads the late messages of
+    # its own retained epochs (what one group writes must not touch what the storage keeps for another)
+    for i in range(4 if quick else 24):
+        sc2, checks2 = two_group_script(rng, f"c06-two-{i}", ["sqlite", "mem"][i % 2], rng.choice([2, 3, 5]))
+        sc2["ops"].insert(checks2[0], {"op": "load", "who": "C"})
+        scripts.append(sc2)
+        marks.append([])
     recs = run_scripts(scripts, timeout=1500)
     failing = []
     n_checks = 0
